@@ -284,6 +284,26 @@ def r05b(ctx):
                    'quantizer' if ok_w else
                    f'weight loop zips {short(zw[0], 60)} with {short(zw[1], 80)}',
                    where(gc, e.node))
+            # the entry is filed at [index of the input loop][index of the weight loop]: the
+            # matrix is allocated (input precisions) x (weight precisions)
+            def enum_zip(t):
+                if t[0] == 'sub' and t[2] == ('const', 0) and t[1][0] == 'elem' and \
+                        is_call(t[1][1], 'builtins.enumerate') and t[1][1][2] and \
+                        is_call(t[1][1][2][0], 'builtins.zip'):
+                    return tuple(t[1][1][2][0][2])
+                return None
+            tgt, col = e.data[0], e.data[1]
+            if tgt[0] == 'sub':
+                zr, zc = enum_zip(tgt[2]), enum_zip(col)
+                if zr is not None and zc is not None:
+                    ok_idx = zr == tuple(zin) and zc == tuple(zw)
+                    ctx.ob('R05b', f'{lbl} entry position', ok_idx,
+                           'cost[i][j]: row = input precision, column = weight precision'
+                           if ok_idx else
+                           f'the entry is stored at [{short(tgt[2], 40)}][{short(col, 40)}]: row '
+                           f'and column do not follow the (input, weight) loops the matrix is '
+                           f'allocated for (transposed: out of range or mis-reduced when the two '
+                           f'precision sets differ in size)', where(gc, e.node))
             # spec precision keys use component 0 of the same zips
             spec_w = {}
             for e2 in p.events:
